@@ -883,7 +883,8 @@ pub fn parent(id: &str, tier: &str) -> i32 {
     let thorough = tier == "thorough";
     // 1. replay tier: committed regression inputs of this property
     let mut replayed = 0;
-    for p in replay_dir(id) {
+    let replays = if std::env::var("VCHECK_NO_REPLAYS").is_ok() { Vec::new() } else { replay_dir(id) };
+    for p in replays {
         let (code, out) = run_replay_child(&p);
         replayed += 1;
         if code == 1 || code >= 128 || code < 0 {
